@@ -342,14 +342,14 @@ func (x *Exec) inlineBody(s *State, fi *FuncInfo, ft *ast.FuncType, body *ast.Bl
 	acc := rets[0]
 	accVals := acc.Vals
 	for _, e := range rets[1:] {
-		sel := e.S.PC
+		sel := relCond(e.S.PC, acc.S.PC)
 		mvals := make([]*Value, nres)
 		for i := 0; i < nres; i++ {
 			a, b := x.deadenIfPtr(e.S, e.Vals[i]), x.deadenIfPtr(acc.S, accVals[i])
 			m, ok := iteV(sel, a, b)
 			if !ok {
-				x.note("results of %s have different shapes on different paths: result %d havocked", c.name(), i)
-				m = &Value{K: KOpaque, Typ: c.resTypes[i]}
+				x.note("results of %s have different shapes on different paths (%s): result %d havocked", c.name(), shapeDiff(a, b, ""), i)
+				m = freshLike(c.resTypes[i], "merged")
 			}
 			mvals[i] = m
 		}
@@ -674,6 +674,11 @@ func (x *Exec) evalConversion(s *State, call *ast.CallExpr, t types.Type) *Value
 		}
 		if isString(st) {
 			if _, isSlice := t.Underlying().(*types.Slice); isSlice {
+				if v.T.IsInt() && v.T.Val.IsInt64() {
+					if lit, ok := x.Pr.StrOf(v.T.Val.Int64()); ok {
+						return &Value{K: KBytes, Typ: t, B: &Bytes{Kind: "key", Segs: []KeySeg{{Const: []byte(lit)}}}}
+					}
+				}
 				return &Value{K: KBytes, Typ: t, B: &Bytes{Kind: "str", T: v.T, Segs: []KeySeg{{T: v.T, Kind: "str"}}}}
 			}
 			return prim(v.T, t)
@@ -792,7 +797,18 @@ func normSegs(segs []KeySeg) []KeySeg {
 func (x *Exec) genericExternal(s *State, f *types.Func, recv *Value, args []*Value, call *ast.CallExpr) ([]*Value, bool) {
 	full := f.FullName()
 	sig := f.Type().(*types.Signature)
-	// protobuf-generated getters on messages: (m *T) GetX() X  — defined in repo types packages (have bodies) so normally inlined.
+	// protobuf-generated getters of external message types: (m *T) GetX() X
+	if recv != nil && strings.HasPrefix(f.Name(), "Get") && sig.Params().Len() == 0 && sig.Results().Len() == 1 {
+		rv := recv
+		if rv.K == KPtr && rv.Cell != 0 {
+			rv = s.Heap[rv.Cell]
+		}
+		if rv.K == KStruct {
+			if fv := rv.field(strings.TrimPrefix(f.Name(), "Get")); fv != nil {
+				return []*Value{fv}, true
+			}
+		}
+	}
 	// errors / fmt / logging: result is an opaque non-nil error or nothing
 	switch {
 	case strings.HasPrefix(full, "fmt.Errorf"), strings.HasPrefix(full, "errors.New"), strings.HasPrefix(full, "cosmossdk.io/errors.Wrap"),
